@@ -17,7 +17,8 @@ def main():
     cases = [(('f1', RVec([1, 5, 2, 7, 20, 9])), 13), (('f2', RVec([])), 0), (('f2', RVec([7])), 7), (('f2', RVec([7, 1, 1])), 9),
              (('f3', Some(3)), True), (('f3', Some(1)), False), (('f3', NONE()), False), (('f4', 1, 2), 1), (('f4', 2, 2), 2), (('f4', 3, 2), 3),
              (('f5', 1), 10), (('f5', 4), 20), (('f5', 9), 30), (('f6',), ['a', 'b', 'c']), (('f7', RVec([1, 3, 2, 3])), [3, 2, 1]),
-             (('f8', RStr('abcdef')), '#ace'), (('f9',), 2), (('f10', RVec([1]), RVec([1, 2, 3])), 3)]
+             (('f8', RStr('abcdef')), '#ace'), (('f9',), 2), (('f10', RVec([1]), RVec([1, 2, 3])), 3),
+             (('f11',), 3), (('f12', 0), 0), (('f12', 1), 4), (('f12', 2), 10)]
     bad = 0
     for args, want in cases:
         got = run(*args)
